@@ -7,6 +7,99 @@ from .arr import ArrData, SArr, memo
 FEAS_TIMEOUT_MS = 3000
 
 
+_SYMS = {}
+
+
+def _symbols(t):
+    """Names of the uninterpreted constants / functions occurring in a z3 term (cached per term id)."""
+    if isinstance(t, bool):
+        return frozenset()
+    k = t.get_id()
+    r = _SYMS.get(k)
+    if r is not None:
+        return r
+    out = set()
+    seen = set()
+    todo = [t]
+    while todo:
+        x = todo.pop()
+        i = x.get_id()
+        if i in seen:
+            continue
+        seen.add(i)
+        if z3.is_quantifier(x):
+            todo.append(x.body())
+            continue
+        if z3.is_app(x):
+            d = x.decl()
+            if d.kind() == z3.Z3_OP_UNINTERPRETED:
+                out.add(d.name())
+            todo.extend(x.children())
+    r = frozenset(out)
+    if len(_SYMS) > 200000:
+        _SYMS.clear()
+    _SYMS[k] = (t, r)[1]
+    _KEEP.append(t)
+    return r
+
+
+_KEEP = []     # keeps cached terms alive so that z3 ids are not reused
+
+def cone_of_influence(constraints, goal):
+    """The constraints connected to `goal` through shared uninterpreted symbols (transitively).  The remaining
+    constraints share no symbol with these; as long as they are satisfiable on their own (the path is feasible)
+    dropping them changes neither validity nor satisfiability of the query."""
+    cons = [(c, _symbols(c)) for c in constraints if not isinstance(c, bool)]
+    cone = set(_symbols(goal)) if not isinstance(goal, bool) else set()
+    picked = [False] * len(cons)
+    changed = True
+    while changed:
+        changed = False
+        for i, (c, sy) in enumerate(cons):
+            if not picked[i] and (sy & cone):
+                picked[i] = True
+                cone |= sy
+                changed = True
+    return [c for i, (c, sy) in enumerate(cons) if picked[i]]
+
+
+OPAQUE_PREDICATES = ('np_any', 'allclose')
+_ABS = {}
+
+
+def _abstract(t):
+    """Replace applications of axiom-free uninterpreted predicates (np.any over an array, np.allclose) by Boolean
+    atoms named after the application term.  Used for path-feasibility questions only: it forgets congruence
+    (equal arguments => equal value), so it can only make more paths look feasible; a path whose full assumptions
+    turn out unsatisfiable is discarded before any obligation is generated."""
+    if isinstance(t, bool):
+        return t
+    k = t.get_id()
+    if k in _ABS:
+        return _ABS[k]
+    subs = []
+    seen = set()
+    todo = [t]
+    while todo:
+        x = todo.pop()
+        i = x.get_id()
+        if i in seen:
+            continue
+        seen.add(i)
+        if z3.is_quantifier(x):
+            continue
+        if z3.is_app(x):
+            if x.decl().kind() == z3.Z3_OP_UNINTERPRETED and x.decl().name() in OPAQUE_PREDICATES:
+                subs.append((x, z3.Bool('atom!%d' % i)))
+                continue
+            todo.extend(x.children())
+    r = z3.substitute(t, *subs) if subs else t
+    _ABS[k] = r
+    _KEEP.append(t)
+    _KEEP.append(r)
+    return r
+
+
 class SObj(object):
     """Heap object of a repo class (fields live in State.heap[oid])."""
     __slots__ = ('oid', 'cls', 'pre')
@@ -92,12 +185,29 @@ class State(object):
 
     # ---------------------------------------------------------------- decisions
     def feasible(self, extra):
+        """Is pc /\\ facts /\\ extra satisfiable?  Only the constraints in the cone of influence of `extra`
+        (connected to it through shared symbols) are sent to the solver: the rest shares no symbol with them and
+        is satisfiable on its own (the path so far is feasible), so the answer is unchanged."""
         s = z3.Solver()
         s.set('timeout', FEAS_TIMEOUT_MS)
-        for f in self.facts:
-            s.add(f)
-        for p in self.pc:
-            s.add(p)
+        extra = _abstract(extra)
+        cons = []
+        for c in list(self.facts) + list(self.pc):
+            c = _abstract(c)
+            cons.append((c, _symbols(c)))
+        cone = set(_symbols(extra))
+        picked = [False] * len(cons)
+        changed = True
+        while changed:
+            changed = False
+            for i, (c, sy) in enumerate(cons):
+                if not picked[i] and (sy & cone):
+                    picked[i] = True
+                    cone |= sy
+                    changed = True
+        for i, (c, sy) in enumerate(cons):
+            if picked[i]:
+                s.add(c)
         s.add(extra)
         t0 = time.time()
         r = s.check()
